@@ -219,9 +219,39 @@ def e2e(ctx, falcon, testing, model):
     async def asink_allow(req, resp, **kw):
         resp.set_header('Allow', 'GET, PATCH')
 
+    class Gate:
+        # another component failing BEFORE the responder stage, with an Allow header on the error
+        def process_request(self, req, resp):
+            if req.path == '/gate':
+                raise falcon.HTTPMethodNotAllowed(['GET', 'PUT'])
+
+        def process_resource(self, req, resp, resource, params):
+            if req.path == '/gate2':
+                raise falcon.HTTPMethodNotAllowed(['GET', 'PUT'])
+
+    class AGate:
+        async def process_request(self, req, resp):
+            if req.path == '/gate':
+                raise falcon.HTTPMethodNotAllowed(['GET', 'PUT'])
+
+        async def process_resource(self, req, resp, resource, params):
+            if req.path == '/gate2':
+                raise falcon.HTTPMethodNotAllowed(['GET', 'PUT'])
+
+    class Status:
+        # a raised HTTPStatus is an unsuccessful request even with a 2xx code
+        def on_options(self, req, resp):
+            raise falcon.HTTPStatus(falcon.HTTP_200, headers={'Allow': 'GET'})
+
+    class AStatus:
+        async def on_options(self, req, resp):
+            raise falcon.HTTPStatus(falcon.HTTP_200, headers={'Allow': 'GET'})
+
     def build(asgi, mw):
         App = falcon.asgi.App if asgi else falcon.App
-        app = App(middleware=mw)
+        app = App(middleware=[AGate() if asgi else Gate()] + mw)
+        app.add_route('/gate2', APlain() if asgi else Plain())
+        app.add_route('/status', AStatus() if asgi else Status())
         app.add_route('/plain', APlain() if asgi else Plain())
         app.add_route('/custom', ACustom() if asgi else Custom())
         app.add_route('/noallow', ANoAllow() if asgi else NoAllow())
@@ -231,7 +261,8 @@ def e2e(ctx, falcon, testing, model):
 
     cfgs = [('*', None, None), ('*', 'X-A', '*'), (['http://a', 'http://b'], ['X-A', 'X-B'], 'http://a'),
             ('http://a', None, ['http://b'])]
-    paths = ['/plain', '/custom', '/noallow', '/sink/x', '/sinkallow/x', '/missing']
+    paths = ['/plain', '/custom', '/noallow', '/sink/x', '/sinkallow/x', '/missing', '/gate', '/gate2', '/status']
+    raising = {('/gate', None), ('/gate2', None), ('/status', 'OPTIONS'), ('/missing', None), ('/plain', 'POST')}
     n = 0
     cases, meta = [], []
     for asgi in (False, True):
@@ -250,7 +281,7 @@ def e2e(ctx, falcon, testing, model):
                                 hd['Access-Control-Request-Method'] = acrm
                             r0 = base.simulate_request(method, path, headers=hd)
                             r1 = cl.simulate_request(method, path, headers=hd)
-                            succ = r0.status_code < 400
+                            succ = r0.status_code < 400 and (path, None) not in raising and (path, method) not in raising
                             pre = {k.lower(): v for k, v in r0.headers.items()}
                             post = {k.lower(): v for k, v in r1.headers.items()}
                             # content-length may legitimately differ only if bodies differ; they do not
